@@ -80,6 +80,21 @@ CLAIMED = {
    note="Trusted: Lean kernel; correspondence sampled / exhaustive as described.",
    technique="Lean 4 proof over the node-kind and label models + exhaustive T4/T3 label matrices",
    design="5/C19"),
+ "C16": dict(
+   text="Proof (Lean 4 kernel) about a model that is REGENERATED from the source on every run: tools/gen_wiring.py translates the feature tables and the dependency line of the two Cargo.toml files into Generated/Wiring.lean; resolve implements cargo's additive feature resolution for this graph. C16_macro_cfg_constant / C16_dead_branch: for every selection a dependent can make the macro crate's regex cfg is on, so the parser and code generator are the same function in both configurations; C16_runtime_delta; C16_literal_rejected; C16_unaffected. The translator and resolve are compared with `cargo tree -e features` on every run; one generated corpus without regex forms is built in both configurations (verdicts and entries must be identical); five Like programs per configuration are accepted / rejected by rustc as the property states.",
+   note="Trusted: Lean kernel; the translator (checked against cargo on every run); the item lists (gated items, template needs) are hand-written from lib.rs / expand.rs and tied by the accept/reject programs.",
+   technique="Lean 4 proof over a wiring model regenerated from the manifests + cargo feature-resolution cross-check + two-configuration differential",
+   design="5/C16"),
+ "C17": dict(
+   text="Proof (Lean 4 kernel) over a transition system of cached_source for any number of threads: C17_cache_inv (the cache only ever holds the file's real content) and C17_own_result (every thread gets exactly its own file's content or None) hold in every reachable state for EVERY interleaving (induction over the schedule), from any initial cache consistent with the file system (cold or warm); C17_no_deadlock; C17_colour (styled iff no live guard, NO_COLOR unset, stderr a terminal); C17_guard (the counter is positive exactly while a guard is alive, for every nested history); the pinned flag implementation is refuted (kernel-checked; repaired by a fix: commit). Tied behaviourally: 16 barrier-released threads x same/different files x cold/warm vs the same failure alone; 4 working directories; a 41-failure history; the full tty x NO_COLOR x guard-scenario matrix in child processes with stderr on a pty. Labelled partial for real schedules (sampled on the implementation).",
+   note="Trusted: Lean kernel; RwLock / thread-local / file system as atomic steps (lock poisoning ignored, as in the code); the hand-written protocol model is tied only behaviourally (schedule replay through yield points is a growth item).",
+   technique="Lean 4 invariant proof over all interleavings of a protocol model + behavioural concurrency / environment / pty correspondence",
+   design="5/C17"),
+ "C20": dict(
+   text="Proof (Lean 4 kernel). C20_stamp_is_own_span: the template generated for a leaf, enum or named-struct pattern is stamped with that pattern's own span whatever value expression (position, depth) it is expanded on; C20_push_span; C20_field_op_span. T2 ties every token's span to the real expansion. Where rustc then puts the primary span is observed, not modelled: 14 single type faults (wrong literal / operand / range / closure-parameter types, missing Like impl, wrong variant, unknown field / nested field / method, wrong index type) injected at each of 16 positions; some error's primary span must lie on the faulty sub-pattern. Labelled partial: rustc's span placement is an oracle.",
+   note="Trusted: Lean kernel for the stamping statements; rustc is the oracle for diagnostic placement; fault list is finite.",
+   technique="Lean 4 proof of context-free span stamping + token-span T2 + rustc JSON diagnostics on a fault x position matrix",
+   design="5/C20"),
 }
 
 def main():
